@@ -2,8 +2,8 @@
 update-algorithm / selective-update configuration and the dates are compared.
 
 A workload is a JSON-able dict {"platform": p, "actors": [{"name", "host", "script": [item...]}], "ti": bool, "features": [...]}.
-Script items (lists): ["S", d] ["P", host, pstate] ["E", id, host, flops, bound, prio] ["C", id, src, dst, bytes, rate]
-["PUT", id, mailbox, bytes] ["GET", id, mailbox] ["AZ", actor, d1, d2] ["G", [E/C items], [controls]] with controls
+Script items (lists): ["S", d] ["P", host, pstate] ["E", id, host, flops, bound, prio] ["C", id, src, dst, bytes]
+["PUT", id, mailbox, bytes, rate] ["GET", id, mailbox] ["AZ", actor, d1, d2] ["G", [E/C items], [controls]] with controls
 ["Z", id, d1, d2] ["U", id, d, prio] ["W", d] ["P", host, pstate].
 
 ti=True restricts the workload to what cpu/optim:TI accepts (src/kernel/resource/models/cpu_ti.cpp): single-core hosts
@@ -160,11 +160,8 @@ class Gen:
             sz = rng.choice([1.0, 2.0, 100.0])
         else:
             sz = float(max(1, int(dur * bw)))
-        rate = -1.0
-        if "bound" in self.feats and rng.random() < 0.2:
-            rate = float("%.6g" % (bw * rng.choice([0.1, 0.5, 1.0, 2.0])))
         self.nid += 1
-        return ["C", self.nid - 1, s, d, sz, rate]
+        return ["C", self.nid - 1, s, d, sz]
 
     def activity(self, host=None):
         return self.exec_(host) if self.rng.random() < 0.6 else self.comm()
@@ -240,7 +237,10 @@ class Gen:
             bw = route_bw(self.p, snd["host"], rh)
             sz = float(max(1, int(logu(rng, 1e-3, 1.0) * bw)))
             mb = "mb%d" % k
-            snd["script"].insert(rng.randint(0, len(snd["script"])), ["PUT", self.nid, mb, sz])
+            rate = -1.0
+            if "bound" in self.feats and rng.random() < 0.5:
+                rate = float("%.6g" % (bw * rng.choice([0.1, 0.5, 1.0, 2.0])))
+            snd["script"].insert(rng.randint(0, len(snd["script"])), ["PUT", self.nid, mb, sz, rate])
             actors.append({"name": "r%d" % k, "host": rh, "script": [["S", float("%.4g" % logu(rng, 1e-3, 2.0))], ["GET", self.nid, mb]]})
             self.nid += 1
         return {"platform": self.p, "actors": actors, "ti": self.ti, "features": sorted(self.feats)}
@@ -270,9 +270,9 @@ def item_text(it):
     if k == "E":
         return ["E %d %s %r %r %r" % tuple(it[1:])]
     if k == "C":
-        return ["C %d %s %s %r %r" % tuple(it[1:])]
+        return ["C %d %s %s %r" % tuple(it[1:5])]
     if k == "PUT":
-        return ["PUT %d %s %r" % tuple(it[1:])]
+        return ["PUT %d %s %r %r" % tuple(it[1:])]
     if k == "GET":
         return ["GET %d %s" % tuple(it[1:])]
     if k == "AZ":
